@@ -50,10 +50,10 @@ import Mdns.Lemmas.ResponderAnnounce
     addresses as answers) in the iteration at `t0+j+750` and again in the one at `t0+j+1750`;
   The statement for every service, interface and start time is `probe_lifecycle_full`.
 
-  Findings kept as theorems about the model (= the code, by the correspondence):
-  `late_iteration_skips_probes` (an iteration 750 ms late ends a probe that sent nothing).
-  Repaired: D33 - `joining_record_restarts_probe` (a record that joins a running probe starts
-  it over) with a regression example on the witness history.
+  Repaired: D31 - `three_probes_whatever_the_scheduler` (a probe sends its three queries, 250 ms
+  apart, before it ends, at whatever instants the loop runs; was `late_iteration_skips_probes`);
+  D33 - `joining_record_restarts_probe` (a record that joins a running probe starts it over);
+  each with a regression example on the witness history.
 -/
 namespace Mdns.Props.C07
 open Mdns Mdns.Responder
@@ -86,9 +86,10 @@ theorem announcement_needs_active (s : Service) (i : MyIntf) (r : Registry) (v4 
   prepareAnnouncePkt_some h
 
 /-- A probe is finished by `check_probing` only when at least 750 ms have passed since its
-    start (and its next send is due): records reach `active` no earlier. -/
+    start, its next send is due, and - repair of D31 - its three queries have been sent
+    (`next_send` has moved on to the end of the schedule): records reach `active` no earlier. -/
 theorem active_only_after_probe (r : Registry) (now : Nat) (n : BList) (h : n ∈ (checkProbing r now).expired) :
-    ∃ p, (n, p) ∈ r.probing ∧ now ≥ p.next ∧ now ≥ p.start + 750 :=
+    ∃ p, (n, p) ∈ r.probing ∧ now ≥ p.next ∧ now ≥ p.start + 750 ∧ p.next ≥ p.start + 750 :=
   checkProbing_expired h
 
 /-- A query read on an interface where no service is `Announced` (all still probing, or none
@@ -108,20 +109,30 @@ theorem probe_timeline (p : Probe) (T : Nat) (hs : p.start = T) (hn : p.next = T
     p.trace (pre0 ++ T :: (pre1 ++ (T + 250) :: (pre2 ++ (T + 500) :: (pre3 ++ (T + 750) :: rest)))) =
       [(T, .send), (T + 250, .send), (T + 500, .send), (T + 750, .expire)] := by
   rw [Probe.trace_skip p pre0 _ (by simpa [hn] using h0)]
-  rw [Probe.trace_send p T _ (by omega) (by omega)]
+  have e0 := Probe.trace_send p (pre1 ++ (T + 250) :: (pre2 ++ (T + 500) :: (pre3 ++ (T + 750) :: rest))) (by omega)
+  rw [hn] at e0
+  rw [e0]
   rw [Probe.trace_skip _ pre1 _ (by simpa using h1)]
-  rw [Probe.trace_send _ (T + 250) _ (by simp) (by simp [hs])]
-  rw [Probe.trace_skip _ pre2 _ (by simpa using h2)]
-  rw [Probe.trace_send _ (T + 500) _ (by simp) (by simp [hs])]
-  rw [Probe.trace_skip _ pre3 _ (by simpa using h3)]
-  rw [Probe.trace_expire _ (T + 750) _ (by simp) (by simp [hs])]
+  have e1 := Probe.trace_send ({ p with next := T + 250 } : Probe) (pre2 ++ (T + 500) :: (pre3 ++ (T + 750) :: rest))
+    (by simp [hs])
+  simp only [] at e1
+  rw [e1]
+  rw [Probe.trace_skip _ pre2 _ (by simpa [Nat.add_assoc] using h2)]
+  have e2 := Probe.trace_send ({ p with next := T + 250 + 250 } : Probe) (pre3 ++ (T + 750) :: rest) (by simp [hs])
+  simp only [] at e2
+  have e500 : T + 500 = T + 250 + 250 := by omega
+  rw [e500, e2]
+  rw [Probe.trace_skip _ pre3 _ (by simpa [Nat.add_assoc] using h3)]
+  rw [Probe.trace_expire _ (T + 750) _ (by simp) (by simp [hs]) (by simp [hs])]
 
 /-- What a probe that sends at `now` puts on the wire and asks for: the question `ANY name`,
-    all its records in the authority section, a timer 250 ms later, and `next_send` moved there. -/
+    all its records in the authority section, a timer 250 ms later, and `next_send` moved there
+    (and `start_time` moved by the lateness of this query, repair of D31). -/
 theorem probe_query_content (r : Registry) (now : Nat) (n : BList) (p : Probe) (hm : (n, p) ∈ r.probing)
     (ha : p.action now = .send) :
     (n, TYPE_ANY) ∈ (checkProbing r now).questions ∧ (∀ a ∈ p.records, a ∈ (checkProbing r now).authorities) ∧
-    (now + 250) ∈ (checkProbing r now).timers ∧ (n, { p with next := now + 250 }) ∈ (checkProbing r now).reg.probing :=
+    (now + 250) ∈ (checkProbing r now).timers ∧
+    (n, { p with start := p.start + (now - p.next), next := now + 250 }) ∈ (checkProbing r now).reg.probing :=
   checkProbing_sends hm ha
 
 /-- every question of a probe query is an `ANY` question for a name that is being probed and due -/
@@ -170,13 +181,16 @@ theorem probe_end_activates_records (intfName : BList) (acc : Registry × List E
     which it runs, interface `i` is there once, the probe of `n` on `i` has start `st`, next
     send `nx` and holds the records `R`, and no record named `n` of a registered service is left
     to come to that probe (`Settled`, part of `Good`: such a record would start the probe over) -
-    other probes, services, interfaces, queued re-runs and timers arbitrary.  While the probe does not end (`now < nx` or `now < st + 750`): the probe
+    other probes, services, interfaces, queued re-runs and timers arbitrary.  While the probe
+    does not end (`now < nx`, or `now < st + 750`, or its three queries are not yet sent:
+    `nx < st + 750`): the probe
     query for `n` leaves on `i` in this iteration exactly if `now ≥ nx` - on every family of the
     interface, a query packet with `ANY n` among the questions and all of `R` among the
-    authorities - and then `nx` becomes `now + 250`; otherwise the probe is as before. -/
+    authorities - and then `nx` becomes `now + 250` and the start moves by the lateness
+    `now - nx` (repair of D31); otherwise the probe is as before. -/
 theorem probe_query_in_daemon (s : State) (i : MyIntf) (l1 l2 : List MyIntf) (n : BList) (st nx : Nat) (R : Cargo) (now j : Nat)
-    (h : Good s i l1 l2 n st nx R) (hlive : now < nx ∨ now < st + 750) :
-    Good (iter s (idle now j)).1 i l1 l2 n st (if now ≥ nx then now + 250 else nx) R ∧
+    (h : Good s i l1 l2 n st nx R) (hlive : now < nx ∨ now < st + 750 ∨ nx < st + 750) :
+    Good (iter s (idle now j)).1 i l1 l2 n (if now ≥ nx then st + (now - nx) else st) (if now ≥ nx then now + 250 else nx) R ∧
     (now < nx → asked i.index n (iter s (idle now j)).2 = false) ∧
     (now ≥ nx → ∀ v4, i.hasFamily v4 = true → ∃ pkt, Out.send i.index v4 none pkt ∈ (iter s (idle now j)).2 ∧
       pkt.flags = 0 ∧ (n, TYPE_ANY) ∈ pkt.questions ∧ ∀ a ∈ R.recs, a ∈ pkt.authorities) :=
@@ -383,12 +397,34 @@ theorem registration_announced_twice (s : State) (i : MyIntf) (l1 l2 : List MyIn
 
 /-! ### findings (the model mirrors the code; both agree on the witnesses in corpus/C07) -/
 
-/-- FINDING (late first iteration): a probe that has sent nothing ends in the first iteration
-    that comes 750 ms or more after its start - its records become active without a single
-    probe query.  Excluded by the timely scheduler of `probe_timeline`. -/
-theorem late_iteration_skips_probes (T t : Nat) (h : t ≥ T + 750) (rest : List Nat) :
-    (Probe.new T).trace (t :: rest) = [(t, .expire)] :=
-  Probe.trace_expire _ t rest (by simp [Probe.new]; omega) (by simpa [Probe.new] using h)
+/-- REPAIRED (D31, late iteration; was `late_iteration_skips_probes`: a probe that had sent
+    nothing ended in the first iteration 750 ms or more after its start).  THREE QUERIES WHATEVER
+    THE SCHEDULER: a fresh probe (start = first send = `T`), looked at at ANY instants - late, in
+    bursts, in any order - sends at most three queries, none before `T`, each at least 250 ms
+    after the one before; and if it ends, it has sent exactly three and ends at least 250 ms
+    after the third. -/
+theorem three_probes_whatever_the_scheduler (T : Nat) (ts : List Nat) :
+    (sendTimes ((Probe.new T).trace ts)).length ≤ 3 ∧ (∀ x ∈ sendTimes ((Probe.new T).trace ts), T ≤ x) ∧
+    (sendTimes ((Probe.new T).trace ts)).Pairwise (fun a b => a + 250 ≤ b) ∧
+    (∀ te, endTime ((Probe.new T).trace ts) = some te →
+      (sendTimes ((Probe.new T).trace ts)).length = 3 ∧ ∀ x ∈ sendTimes ((Probe.new T).trace ts), x + 250 ≤ te) := by
+  obtain ⟨h1, h2, h3, h4⟩ := Probe.trace_three ts (Probe.new T) 0 (Probe.Sent.new T)
+  exact ⟨by omega, h2, h3, fun te hte => ⟨by have := (h4 te hte).1; omega, (h4 te hte).2.2⟩⟩
+
+/-- the same for a probe that starts over (a lost tiebreak, a record that joined): whatever was
+    sent before, three queries follow the new start -/
+theorem three_probes_after_restart (p : Probe) (T : Nat) (ts : List Nat) :
+    let q : Probe := { p with start := T, next := T }
+    (sendTimes (q.trace ts)).length ≤ 3 ∧ (∀ x ∈ sendTimes (q.trace ts), T ≤ x) ∧
+    (∀ te, endTime (q.trace ts) = some te → (sendTimes (q.trace ts)).length = 3) := by
+  intro q
+  obtain ⟨h1, h2, _, h4⟩ := Probe.trace_three ts q 0 ⟨rfl, by omega⟩
+  exact ⟨by omega, h2, fun te hte => by have := (h4 te hte).1; omega⟩
+
+/-- REGRESSION (D31): the first iteration comes 800 ms after the start of the probe - it sends
+    the first query (it ended the probe before the repair); the probe ends only after two more. -/
+example : (Probe.new 1000).trace [1800, 2050, 2300, 2550] =
+    [(1800, .send), (2050, .send), (2300, .send), (2550, .expire)] := by decide
 
 /-- REPAIRED (D33, shared probe; was `joining_record_inherits_age`): a record that comes to an
     existing probe of its name - a second service on the same host name with another address -
@@ -427,6 +463,9 @@ def web2 : Service := { web with
   addrs := [[192, 168, 1, 21]] }
 
 def web2A : RR := { name := web.host, ty := 1, flush := true, ttl := 120, rdata := .a [192, 168, 1, 21] }
+
+/-- the SRV record of `web` -/
+def webSrv' : RR := { name := web.fullname, ty := 33, flush := true, ttl := 120, rdata := .srv 0 0 80 web.host }
 
 /-- is `a` among the authorities of a probe query of this iteration? -/
 def probesWith (a : RR) (outs : List Out) : Bool :=
@@ -574,11 +613,15 @@ example :
          { now := 1000257, jitter := 7 }, { now := 1000507, jitter := 7 }, { now := 1000757, jitter := 7 }]).1.services.map
       fun e => (e.2.announcedOn 2, e.2.probe)) = [(true, true)] := by decide +kernel
 
-/-- a late iteration: registered at 1000000 with jitter 10, next iteration 800 ms later:
-    announced at once, no probe query at all -/
+/-- REGRESSION (D31, corpus/C07/d31_late_first_iteration.ops): registered at 1000000 with jitter
+    10, next iteration 800 ms later: that iteration sends the first PROBE QUERY (before the repair
+    it announced at once, not one query sent); two more follow, then the announcement -/
 example :
-    (sendsAt [(1000800, (iter (iter (init 1000000 [eth0]) { now := 1000000, jitter := 10, cmds := [.register web] }).1
-        { now := 1000800, jitter := 10 }).2)]).map (fun x => x.1) = [1000800] := by decide +kernel
+    (run (init 1000000 [eth0])
+      ([{ now := 1000000, jitter := 10, cmds := [.register web] }] ++
+        [1000800, 1001050, 1001300, 1001550].map fun t => { now := t, jitter := 10 })).2.map
+      (fun outs => (probesWith webSrv' outs, answersWith webSrv' outs)) =
+      [(false, false), (true, false), (true, false), (true, false), (false, true)] := by decide +kernel
 
 /-! non-vacuity of `probe_schedule_in_daemon`: the state right after `register(web)` on a fresh
     daemon (jitter 7) satisfies `Good` for the probe of the instance name, fresh at 1000007 -/
